@@ -179,7 +179,7 @@ def tlc(module, cfg=None, workers=1, extra=(), env=None, timeout=1700, xmx="4g",
     if deque:
         jopts.append("-Dtlc2.tool.queue.IStateQueue=StateDeque")
     cmd = (["java"] + jopts + ["-cp", TLAJAR, "tlc2.TLC", "-workers", str(workers), "-metadir", md,
-                               "-config", cfg] + list(extra) + [module + ".tla"])
+                               "-config", cfg, "-noGenerateSpecTE"] + list(extra) + [module + ".tla"])
     t0 = time.time()
     e = dict(os.environ)
     e.pop("JAVA_TOOL_OPTIONS", None)
